@@ -13,8 +13,7 @@ ID = "C12"
 LEVEL = "exploration"
 TECHNIQUE = "runtime differential monitor over a class-skeleton product with an injected observation function"
 RULE = ("class skeletons: bases {none, one, two, inherited chain, diamond, base with metaclass} x metaclass {none, "
-        "explicit} x class keywords {none, one -> __init_subclass__} x decorators {0,1,2} x placement {module, function, "
-        "class} = full header product x every single member kind (data attribute, method, staticmethod, classmethod, "
+        "explicit} x class keywords {none, one -> __init_subclass__} x decorators {0,1,2} x placement {module, function, class, loop, function with two further super()-using classes, class statement executed twice by a loop in a function, class created inside a super()-using method} = full header product x every single member kind (data attribute, method, staticmethod, classmethod, "
         "property with setter, nested class, lambda attribute, comprehension attribute, if/for/while in the body, zero- "
         "and two-argument super(), __init_subclass__, __slots__, descriptor with __set_name__, private name, docstring, "
         "dunder methods, class variable as method default, annotated member, method closing over a function local, "
@@ -147,10 +146,24 @@ def program(b, m, kw, d, members, place):
         return PRE + "class Outer:\n" + '\n'.join('    ' + l for l in lines) + "\nprint(_obs(Outer.K))\n"
     if place == 'loop':
         return PRE + "for _r in range(2):\n" + '\n'.join('    ' + l for l in lines) + "\n    print(_obs(K))\n"
+    ind = lambda n: '\n'.join('    ' * n + l for l in lines)
+    if place == 'func2':
+        # two class statements in one function, both with zero-argument super()
+        return (PRE + "def mk():\n    class Pre(B2):\n        def who(self):\n            return 'Pre>' + super().who()\n" + ind(1)
+                + "\n    class Post(B2):\n        def who(self):\n            return 'Post>' + super().who()\n    return K, Pre, Post\n"
+                + "_k, _pre, _post = mk()\nprint(_obs(_k))\nprint(_pre().who(), _post().who())\n")
+    if place == 'funcloop':
+        # the class statement is executed twice by a loop inside a function; the first class is observed afterwards
+        return (PRE + "def mk():\n    made = []\n    for _r in range(2):\n" + ind(2) + "\n        made.append(K)\n    return made\n"
+                + "_m = mk()\nprint(_obs(_m[0]))\nprint(_obs(_m[1]))\nprint(_m[0] is _m[1])\n")
+    if place == 'inmethod':
+        # the class is created inside a method that itself uses zero-argument super()
+        return (PRE + "class Factory(B2):\n    def who(self):\n" + ind(2) + "\n        return K, 'F>' + super().who()\n"
+                + "_k, _w = Factory().who()\nprint(_w)\nprint(_obs(_k))\nprint(Factory().who()[1])\n")
 
 
 HEADERS = list(itertools.product(BASES, META, KW, DECOS))
-PLACES = ['module', 'func', 'class', 'loop']
+PLACES = ['module', 'func', 'class', 'loop', 'func2', 'funcloop', 'inmethod']
 
 
 def cells(tier):
